@@ -334,18 +334,49 @@ def check(ctx):
         elif fn is init and canon(arg) == "self.x0":
             # self.x0: validator result[0] or a uniform draw between the validated plausible bounds
             good = val_ok.get(0, False)
+            from .common import pos as _pos
+
+            ran_before = set()
+            for call_, tg_ in prog.calls_in(init):
+                if _pos(call_) < _pos(c):
+                    for t_ in tg_:
+                        if isinstance(t_, FunctionInfo) and t_ is not val:
+                            ran_before |= {t_} | set(prog.reachable_from(t_))
+
+            def val_origin(m, e, kind="assign", depth=0):
+                """index of the validator result component that e is, wherever it was parked in between (a local bound
+                by unpacking the validator call, an attribute of self assigned from such a local, a copy of either)"""
+                if e is None or depth > 4:
+                    return None
+                if isinstance(e, ast.Call) and any(x is val for x in prog.resolve_call(m, e)):
+                    return int(kind[7:-1]) if kind.startswith("assign[") else None
+                if isinstance(e, ast.Call) and isinstance(e.func, ast.Attribute) and e.func.attr == "copy" and not e.args:
+                    return val_origin(m, e.func.value, "assign", depth + 1)
+                if isinstance(e, ast.Name):
+                    ds = [(v_, k_) for t_, v_, s_, k_ in iter_stores(m.node) if isinstance(t_, ast.Name) and t_.id == e.id]
+                    if len(ds) == 1:
+                        return val_origin(m, ds[0][0], ds[0][1], depth + 1)
+                    return None
+                a_ = self_attr_of(e)
+                if a_ and isinstance(e, ast.Attribute):
+                    # stores made by methods that run only after the constraint call (the state initialiser re-bases the
+                    # bounds into the transformed space later) do not define the value read here
+                    os_ = {val_origin(m2, v2, k2, depth + 1) if m2 is init else None for m2, t2, v2, s2, k2 in attr_stores(prog, R.bads, a_) if m2 is init or m2 in ran_before}
+                    return next(iter(os_)) if len(os_) == 1 else None
+                return None
+
             for m, t, v, s, k in attr_stores(prog, R.bads, "x0"):
                 if m is not init:
                     good = False
+                if val_origin(m, v, k) == 0:
+                    continue
                 if isinstance(v, ast.Name):
                     from .common import deref_expr as _dx1
 
                     v = _dx1(prog, m, v)  # the draw kept in a local first
                 if isinstance(v, ast.Call) and call_name(v) == "np.random.uniform":
                     lo, hi = kw(v, "low") or (v.args[0] if v.args else None), kw(v, "high") or (v.args[1] if len(v.args) > 1 else None)
-                    good = good and canon(lo) == "self.plausible_lower_bounds" and canon(hi) == "self.plausible_upper_bounds" and val_ok.get(3, False) and val_ok.get(4, False)
-                elif isinstance(v, ast.Call) and any(x is val for x in prog.resolve_call(m, v)):
-                    good = good and k == "assign[0]"
+                    good = good and val_origin(m, lo) == 3 and val_origin(m, hi) == 4 and val_ok.get(3, False) and val_ok.get(4, False)
                 else:
                     good = False
             okc, why = good, "validated x0 or a uniform draw between validated plausible bounds"
